@@ -505,7 +505,7 @@ class Ctx:
                 remaining -= min(state['n'], remaining)
 
     # ---- coverage-guided driver (atheris / libFuzzer); see vlib/fuzz.py
-    def run_atheris(self, kind, runs, nprocs=None):
+    def run_atheris(self, kind, runs, nprocs=None, guided=False):
         from vlib import fuzz
         if self.worker:
             raise HarnessError('run_atheris inside a worker')
@@ -516,7 +516,7 @@ class Ctx:
             self.note('atheris not importable (setup.sh installs it into .deps): coverage-guided layer skipped')
             self.rec.classes['atheris-unavailable'] += 1
             return
-        fuzz.run_parent(self, kind, runs, nprocs or NPROC)
+        fuzz.run_parent(self, kind, runs, nprocs or NPROC, guided)
 
     def exhaustive(self, what):
         self.exhaustive_layers.append(what)
